@@ -67,7 +67,7 @@ impl Prop for LspSpectrum {
         64
     }
     fn cases(&self, tier: Tier) -> u32 {
-        tier.pick(1_500, 40_000)
+        tier.pick(5_000, 100_000)
     }
     fn decode(&self, t: &mut Tape, _: Tier) -> Case {
         let rate = *t.pick(RATES);
